@@ -16,8 +16,8 @@ OPTIONS = {
     "thorough": {"max_paths": 1500000, "unit_budget_s": 3300},
 }
 BOUNDS = {
-    "quick": {"raw_bytes": "all byte strings of length <= 6 (server, fresh) / <= 5 (client with a search and an extended operation outstanding)", "envelope": "30 L + L symbolic octets, L <= 5, followed by a valid message; whole, and cut after every octet of the envelope", "window": "2 symbolic octets at every interior offset of 11 seed messages, followed by a valid message", "three chunks": "every pair of cut positions over 4 two-message streams with symbolic contents"},
-    "thorough": {"raw_bytes": "length <= 8 / <= 7", "envelope": "L <= 7", "window": "2 and 3 symbolic octets at every interior offset of all 17 seeds"},
+    "quick": {"raw_bytes": "all byte strings of length <= 7 (server, fresh) / <= 6 (client with a search and an extended operation outstanding)", "envelope": "30 L + L symbolic octets, L <= 5, followed by a valid message; whole, and cut after every octet of the envelope", "window": "2 symbolic octets at every interior offset of 11 seed messages, followed by a valid message", "three chunks": "every pair of cut positions over 4 two-message streams with symbolic contents"},
+    "thorough": {"raw_bytes": "length <= 10 / <= 8", "envelope": "L <= 7", "window": "2 and 3 symbolic octets at every interior offset of all 17 seeds"},
 }
 OUTSIDE = ["interiors longer than the envelope bound that are not seed-derived", "more than two chunks (C02 one-step lemma)"]
 ASSUMPTIONS = ["a protocol error ends the accounting (the property allows an error instead of a message)"]
@@ -29,9 +29,9 @@ def units(tier):
 
     quick = tier == "quick"
     us = []
-    for side, pre, nmax in (("server", "fresh", 6 if quick else 8), ("client", "search", 5 if quick else 7)):
+    for side, pre, nmax in (("server", "fresh", 7 if quick else 10), ("client", "search", 6 if quick else 8)):
         for n in range(0, nmax + 1):
-            parts = [None] if n < 7 else list(range(16))
+            parts = common.raw_parts(n)
             for part in parts:
                 us.append({"name": f"raw_{side}_n{n}" + (f"_p{part}" if part is not None else ""), "shape": {"kind": "raw", "side": side, "pre": pre, "n": n, "cut": None, "part": part}})
             if n <= (3 if quick else 5):
@@ -98,9 +98,7 @@ def body(ctx, shape):
         return _stream2(ctx, shape)
     if kind == "raw":
         data = ctx.bytes("data", shape["n"])
-        if shape.get("part") is not None and shape["n"] > 0:
-            p = shape["part"]
-            ctx.assume(ctx.all(data[0] >= p * 16, data[0] < (p + 1) * 16))
+        common.assume_part(ctx, data, shape.get("part"))
     elif kind == "env":
         L = shape["L"]
         inner = ctx.bytes("inner", L)
